@@ -25,8 +25,8 @@ func vhEntries(w *cert.VWorld, m int, nmsgs int) []cert.VEntry {
 func VH_C03_proposal(n int, rule int, parentSel int, qcSel int) {
 	leader := hotstuff.ID(nondetU32("leader"))
 	vassume(leader >= 2 && int(leader) <= n+1)
-	r := vhNewReplica(n, rule, leader, vsymbolic())
-	w := r.w
+	r := VNewReplica(n, rule, leader, vsymbolic())
+	w := r.W
 	q := hotstuff.QuorumSize(n)
 	gen := hotstuff.GetGenesis()
 	gqc := hotstuff.NewQuorumCert(nil, 0, gen.Hash())
@@ -37,10 +37,10 @@ func VH_C03_proposal(n int, rule int, parentSel int, qcSel int) {
 	// arbitrary replica state
 	cur := hotstuff.View(nondetU64("current-view"))
 	vassume(cur >= 1 && cur < 1<<40)
-	r.states.VSetView(cur)
+	r.States.VSetView(cur)
 	last0 := hotstuff.View(nondetU64("last-voted"))
 	vassume(last0 < 1<<40)
-	r.voter.VSetLastVoted(last0)
+	r.Voter.VSetLastVoted(last0)
 	// the proposal
 	vb := hotstuff.View(nondetU64("block-view"))
 	vassume(vb >= 1 && vb < 1<<40)
@@ -73,15 +73,15 @@ func VH_C03_proposal(n int, rule int, parentSel int, qcSel int) {
 	sender := hotstuff.ID(nondetU32("sender"))
 	vclass("parent-differs-from-certified-block", parent != certified.Hash())
 	vclass("view-not-above-certified-block", vb <= certified.View())
-	r.el.AddEvent(hotstuff.ProposeMsg{ID: sender, Block: blk})
-	r.drain()
-	last1 := r.voter.VLastVoted()
-	vobserve("voted", uint64(len(r.comm.votedBlocks)))
+	r.El.AddEvent(hotstuff.ProposeMsg{ID: sender, Block: blk})
+	r.Drain()
+	last1 := r.Voter.VLastVoted()
+	vobserve("voted", uint64(len(r.Comm.VotedBlocks)))
 	vassert(last1 >= last0, "vote-history-never-decreases")
-	vassert(len(r.comm.votedBlocks) <= 1, "at-most-one-vote-per-proposal")
-	if len(r.comm.votedBlocks) == 1 {
+	vassert(len(r.Comm.VotedBlocks) <= 1, "at-most-one-vote-per-proposal")
+	if len(r.Comm.VotedBlocks) == 1 {
 		vcover("voted")
-		vassert(r.comm.votedBlocks[0] == blk, "voted-for-the-proposed-block")
+		vassert(r.Comm.VotedBlocks[0] == blk, "voted-for-the-proposed-block")
 		vassert(sender == leader, "voted-only-for-the-leaders-proposal")
 		vassert(qcValid, "voted-only-with-a-valid-qc")
 		vassert(vb > last0, "voted-only-above-last-voted-view")
@@ -97,26 +97,26 @@ func VH_C03_proposal(n int, rule int, parentSel int, qcSel int) {
 func VH_C03_timeout_then_proposal(n int, rule int) {
 	leader := hotstuff.ID(nondetU32("leader"))
 	vassume(leader >= 2 && int(leader) <= n)
-	r := vhNewReplica(n, rule, leader, vsymbolic())
+	r := VNewReplica(n, rule, leader, vsymbolic())
 	cur := hotstuff.View(nondetU64("current-view"))
 	vassume(cur >= 1 && cur < 1<<40)
-	r.states.VSetView(cur)
+	r.States.VSetView(cur)
 	last0 := hotstuff.View(nondetU64("last-voted"))
 	vassume(last0 < 1<<40)
-	r.voter.VSetLastVoted(last0)
-	r.sync.OnLocalTimeout()
-	r.drain()
-	vassert(len(r.comm.timeouts) >= 1, "timeout-message-sent")
-	vassert(r.voter.VLastVoted() >= cur && r.voter.VLastVoted() >= last0, "timeout-stops-voting-for-the-view")
-	view1 := r.states.View()
+	r.Voter.VSetLastVoted(last0)
+	r.Sync.OnLocalTimeout()
+	r.Drain()
+	vassert(len(r.Comm.Timeouts) >= 1, "timeout-message-sent")
+	vassert(r.Voter.VLastVoted() >= cur && r.Voter.VLastVoted() >= last0, "timeout-stops-voting-for-the-view")
+	view1 := r.States.View()
 	gen := hotstuff.GetGenesis()
 	gqc := hotstuff.NewQuorumCert(nil, 0, gen.Hash())
 	vb := hotstuff.View(nondetU64("block-view"))
 	vassume(vb >= 1 && vb < 1<<40)
 	blk := hotstuff.VMakeBlock(hotstuff.VHash(1), gen.Hash(), gqc, &clientpb.Batch{}, vb, leader)
-	r.el.AddEvent(hotstuff.ProposeMsg{ID: leader, Block: blk})
-	r.drain()
-	if len(r.comm.votedBlocks) > 0 {
+	r.El.AddEvent(hotstuff.ProposeMsg{ID: leader, Block: blk})
+	r.Drain()
+	if len(r.Comm.VotedBlocks) > 0 {
 		vcover("voted-after-timeout")
 		vassert(vb > cur, "no-vote-in-or-below-a-timed-out-view")
 	}
